@@ -39,9 +39,13 @@ func init() {
 		orig(c)
 		c.Rule += " Stream batch-mixed-placeholders: 6 context records holding a variable and an ignored value x 10 policy bodies using the record as a whole or by projection x permit/forbid, 64 identical batch calls each. " +
 			"Stream set-history: the same policy objects under the same ids put into 6 PolicySets along different histories (shuffled Add order, MarshalCedar/MarshalJSON between the Adds, temporary Add+Remove, Remove+re-Add); all must encode to the same bytes. " +
+			"Stream encoder-write-failures: one cedar.Encoder used for 2-6 policies while the io.Writer fails at 1-3 injected calls (retrying or moving on); every Encode hands the writer exactly what a fresh encoder writes for that policy. " +
+			"Stream interleaved-encoders: the encoders and other read-only calls of one Schema / Policy / PolicySet / value in 14 random interleavings; each encoder's output never changes. " +
 			"Stream cross-process: a fixed corpus (values, uid sets, entity maps, policies, policy sets, authorization results, decoded documents, schemas) is encoded here and in 3 freshly started child processes; the digests must agree line by line."
 		c14mixedPlaceholders(c)
 		c14setHistory(c)
+		c14encoderFaults(c)
+		c14interleaved(c)
 		c14crossProcess(c)
 	}
 	ChildModes["C14-digest"] = c14digestChild
@@ -125,6 +129,159 @@ func c14mixedPlaceholders(c *mon.Ctx) {
 				map[string]any{"policies": src, "context": cx.name, "outputs": order})
 		}
 	})
+}
+
+// c14failWriter records what each Encode call hands to the writer and fails the calls listed.
+type c14failWriter struct {
+	calls  int
+	failAt map[int]bool
+	cur    *bytes.Buffer
+}
+
+func (f *c14failWriter) Write(b []byte) (int, error) {
+	f.calls++
+	f.cur.Write(b)
+	if f.failAt[f.calls-1] {
+		return 0, fmt.Errorf("injected write failure")
+	}
+	return len(b), nil
+}
+
+// c14encoderFaults: one cedar.Encoder is used for a sequence of policies while the writer
+// fails at chosen calls (fault injection at the io.Writer boundary); the caller carries on
+// with the same encoder (retrying the failed policy or moving to the next). What an Encode
+// call hands to the writer for policy p is what a fresh encoder writes for p - an encoder's
+// past, failed writes included, is not part of its output.
+func c14encoderFaults(c *mon.Ctx) {
+	c.ParFor("encoder-write-failures", c.N(1500, 20000), func(w *mon.W, i int) {
+		r := w.Rand()
+		n := 2 + r.Intn(5)
+		var pols []*cedar.Policy
+		var fresh [][]byte
+		for k := 0; k < n; k++ {
+			mp := gen.RandPolicy(r, gen.ExprCfg{PIll: 0.05, SafeDT: true, WellFormedExt: true}, 2)
+			sanitizePolicy(mp)
+			p := NewPolicy(bridge.ToPolicy(mp))
+			pols = append(pols, p)
+			var fb bytes.Buffer
+			if err := cedar.NewEncoder(&fb).Encode(p); err != nil {
+				w.Inconclusive("fresh encoder fails on a bytes.Buffer: " + err.Error())
+				return
+			}
+			fresh = append(fresh, fb.Bytes())
+		}
+		fw := &c14failWriter{failAt: map[int]bool{}, cur: &bytes.Buffer{}}
+		for k := 0; k < 1+r.Intn(3); k++ {
+			fw.failAt[r.Intn(2*n)] = true
+		}
+		enc := cedar.NewEncoder(fw)
+		retry := r.Bool()
+		var hist []string
+		for k := 0; k < n; k++ {
+			for attempt := 0; attempt < 3; attempt++ {
+				fw.cur.Reset()
+				err := enc.Encode(pols[k])
+				w.Evals(1)
+				hist = append(hist, fmt.Sprintf("Encode(p%d)=%v", k, err != nil))
+				// a failed call may have stopped early: a prefix is fine; a successful one wrote it all
+				if (err == nil && !bytes.Equal(fw.cur.Bytes(), fresh[k])) || (err != nil && !bytes.HasPrefix(fresh[k], fw.cur.Bytes())) {
+					kind := "after an earlier write failure"
+					if !strings.Contains(strings.Join(hist[:len(hist)-1], " "), "true") {
+						kind = "without any earlier failure"
+					}
+					w.Violation("Encoder.Encode hands the writer other bytes than a fresh encoder does ["+kind+"]",
+						fmt.Sprintf("after %s the encoder wrote %q for policy %d, a fresh encoder writes %q", strings.Join(hist, ", "), c14clip(fw.cur.String()), k, c14clip(string(fresh[k]))),
+						map[string]any{"history": hist, "written": fw.cur.String(), "fresh": string(fresh[k])})
+					return
+				}
+				if err == nil || !retry {
+					break
+				}
+			}
+		}
+		w.Count("encoder used across injected write failures")
+		if len(fw.failAt) > 0 {
+			w.NonTrivial(strings.Join(hist, ","))
+		}
+	})
+}
+
+// c14interleaved: the several encoders (and other read-only operations) of ONE object are
+// called in a random interleaving; each encoder's output is the same every time, whatever was
+// called on the object in between (an encoder that normalises the object in place changes
+// what another encoder prints afterwards).
+func c14interleaved(c *mon.Ctx) {
+	type op struct {
+		name string
+		f    func() string
+	}
+	c.ParFor("interleaved-encoders", c.N(1500, 20000), func(w *mon.W, i int) {
+		r := w.Rand()
+		var kind string
+		var ops []op
+		b2s := func(b []byte, err error) string { return string(b) + "|" + fmt.Sprint(err) }
+		switch i % 4 {
+		case 0:
+			kind = "Schema"
+			sc := schema.NewSchemaFromAST(c17Gen(r, c17cfg{hostile: 0, depth: 2}))
+			ops = []op{{"MarshalCedar", func() string { return b2s(sc.MarshalCedar()) }}, {"MarshalJSON", func() string { return b2s(sc.MarshalJSON()) }},
+				{"Resolve", func() string { _, err := sc.Resolve(); return fmt.Sprint(err != nil) }}}
+		case 1:
+			kind = "Policy"
+			mp := gen.RandPolicy(r, gen.ExprCfg{PIll: 0.05, SafeDT: true, WellFormedExt: true}, 3)
+			sanitizePolicy(mp)
+			// an action list and annotations in non-sorted order
+			mp.A = model.Scope{Kind: model.ScInSet, Ents: []model.Val{model.Ent("Action", "z"), model.Ent("Action", "a"), model.Ent("B::Action", "m"), model.Ent("Action", "b")}}
+			mp.Annots = []model.Annot{{Key: "z", Val: "1"}, {Key: "a", Val: "2"}, {Key: "m", Val: "3"}}
+			p := NewPolicy(bridge.ToPolicy(mp))
+			ops = []op{{"MarshalCedar", func() string { return string(p.MarshalCedar()) }}, {"MarshalJSON", func() string { return b2s(p.MarshalJSON()) }},
+				{"AST -> NewPolicyFromAST -> MarshalCedar", func() string { return string(cedar.NewPolicyFromAST(p.AST()).MarshalCedar()) }},
+				{"Annotations", func() string { return fmt.Sprint(len(p.Annotations()), p.Effect()) }}}
+		case 2:
+			kind = "PolicySet"
+			ps := cedar.NewPolicySet()
+			for k := 0; k < 2+r.Intn(4); k++ {
+				mp := gen.RandPolicy(r, gen.ExprCfg{PIll: 0.05, SafeDT: true, WellFormedExt: true}, 2)
+				sanitizePolicy(mp)
+				ps.Add(cedar.PolicyID([]string{"z", "a", "policy10", "policy2", "", "B"}[k]), NewPolicy(bridge.ToPolicy(mp)))
+			}
+			env := gen.RandEnv(r)
+			em, req := bridge.ToEntityMap(env), bridge.ToRequest(env)
+			ops = []op{{"MarshalCedar", func() string { return string(ps.MarshalCedar()) }}, {"MarshalJSON", func() string { return b2s(ps.MarshalJSON()) }},
+				{"Authorize", func() string { return c14DiagString(cedar.Authorize(ps, em, req)) }},
+				{"EntityMap.MarshalJSON", func() string { return b2s(em.MarshalJSON()) }}}
+		default:
+			kind = "Value"
+			v := bridge.ToValue(sanitizeVal(gen.RandValOf(r, []model.Kind{model.KSet, model.KRecord}[r.Intn(2)], 3)))
+			ops = []op{{"MarshalCedar", func() string { return string(v.MarshalCedar()) }}, {"MarshalJSON", func() string { return b2s(json.Marshal(v)) }},
+				{"String", func() string { return v.String() }}, {"Equal(self)", func() string { return fmt.Sprint(v.Equal(v)) }}}
+		}
+		first := map[string]string{}
+		var hist []string
+		for k := 0; k < 14; k++ {
+			o := ops[r.Intn(len(ops))]
+			out := o.f()
+			w.Evals(1)
+			if prev, ok := first[o.name]; ok && prev != out {
+				w.Violation(kind+"."+o.name+": output changes after other read-only calls on the same object",
+					fmt.Sprintf("%s.%s gives a different result after the calls [%s] on the same object: %s", kind, o.name, strings.Join(hist, ", "), c14diff(prev, out)),
+					map[string]any{"object": kind, "calls": hist, "before": prev, "after": out})
+				return
+			} else if !ok {
+				first[o.name] = out
+			}
+			hist = append(hist, o.name)
+		}
+		w.Count("interleaved encoders of one " + kind)
+		w.NonTrivial(kind + "|" + first["MarshalCedar"])
+	})
+}
+
+func c14clip(s string) string {
+	if len(s) > 160 {
+		return s[:160] + "…"
+	}
+	return s
 }
 
 func c14setHistory(c *mon.Ctx) {
